@@ -400,7 +400,15 @@ func init() {
 				} else if err := json.Unmarshal(raw, &pl); err != nil {
 					return "decode-error"
 				}
-				return verdict(pl.Verify(pks, ctx, nonce, o.boolean("issig"), kss))
+				v := verdict(pl.Verify(pks, ctx, nonce, o.boolean("issig"), kss))
+				if n == 1 {
+					// verification is a function of its arguments: asking the same objects again must
+					// give the same answer (proofs cache intermediate results between calls)
+					if v2 := verdict(pl.Verify(pks, ctx, nonce, o.boolean("issig"), kss)); v2 != v {
+						return "unstable-" + v + "-then-" + v2
+					}
+				}
+				return v
 			})
 		})
 	}
@@ -420,7 +428,13 @@ func init() {
 				} else if err := json.Unmarshal(raw, p); err != nil {
 					return "decode-error"
 				}
-				return verdict(p.Verify(pk, ctx, nonce, o.boolean("issig")))
+				v := verdict(p.Verify(pk, ctx, nonce, o.boolean("issig")))
+				if n == 1 {
+					if v2 := verdict(p.Verify(pk, ctx, nonce, o.boolean("issig"))); v2 != v {
+						return "unstable-" + v + "-then-" + v2
+					}
+				}
+				return v
 			})
 		})
 	}
